@@ -115,10 +115,10 @@ func init() {
 	}
 	checks["C16"] = &CheckDef{
 		Pkgs:        []string{"./component/outbound"},
-		Harness:     []string{"component/outbound/dialer:Verif_C16_thresholds", "component/outbound/dialer:Verif_C16_shared_node", "component/outbound/dialer:Verif_C16_suppression", "component/outbound/dialer:Verif_C16_snapshot"},
+		Harness:     []string{"component/outbound/dialer:Verif_C16_thresholds", "component/outbound/dialer:Verif_C16_shared_node", "component/outbound/dialer:Verif_C16_suppression", "component/outbound/dialer:Verif_C16_snapshot", "component/outbound/dialer:Verif_C16_escalation"},
 		MaxIter:     400,
 		Level:       "other",
-		LevelText:   "The real health state machine of dialer.Dialer (markAvailable, markUnavailableInternal, markAvailableTraffic, ReportUnavailable*, ReportAvailableTraffic, informDialerGroupUpdate, notifyAliveTransition, RegisterAliveDialerSet) together with the real AliveDialerSet is executed from counters holding an arbitrary number of consecutive failures below the thresholds, through histories of arbitrary events in each of the seven network types; a three-field monitor written from the statement (consecutive probe failures, consecutive traffic failures, alive; thresholds 1/3/10/50) is compared after every event, as are transition callbacks (edges only), what each group containing the node sees, and the latency group's kernel connectivity bit. Reload muting (Begin/EndReloadProxyFailureSuppression) and snapshot/restore are checked with the same objects.",
+		LevelText:   "The real health state machine of dialer.Dialer (markAvailable, markUnavailableInternal, markAvailableTraffic, ReportUnavailable*, ReportAvailableTraffic, informDialerGroupUpdate, notifyAliveTransition, RegisterAliveDialerSet) together with the real AliveDialerSet is executed from counters holding an arbitrary number of consecutive failures below the thresholds, through histories of arbitrary events in each of the seven network types; a three-field monitor written from the statement (consecutive probe failures, consecutive traffic failures, alive; thresholds 1/3/10/50) is compared after every event, as are transition callbacks (edges only), what each group containing the node sees, and the latency group's kernel connectivity bit. Reload muting (Begin/EndReloadProxyFailureSuppression) and snapshot/restore are checked with the same objects. Also the documented escalation with the real per-address tracker (recordProxyFailure / recordProxySuccess, markUnavailableFromProxyFailure): probe histories over three domains of a proxy node - every unforced death counts towards the address, any successful probe clears the count, the third death without a success in between takes all six domains down; all six domains are compared with the model after every event.",
 		LevelNote:   "Trusted: go/ssa, executor, z3, the monitor in the harness. NotifyHealthCheckResult (recovery back-off, sticky-IP cache) and the recovery manager's snapshot are stubbed out; probes are represented by the calls Dialer.check makes on success/failure; one node (plus a second in the shared-node harness). The connectivity map write (key = outbound*6+domain*2+family) is C19's subject; here the group callback is the observable.",
 		Technique:   techniqueText,
 		Explanation: "Bounded symbolic execution of the dialer health state machine against a threshold monitor.",
